@@ -191,6 +191,13 @@ func NewSymTab(seed int64, moduleAddr []byte, prefix string) *SymTab {
 	l33 := prf(seed, "addr:l33", 33)
 	l33[0] |= 1
 	regOdd("l33", l33)
+	// "p1": 32 bytes, the first 20 of which are a1's (no reverse entry for the 20-byte form: that is a1)
+	p1 := append(append([]byte{}, t.addr["a1"]...), prf(seed, "addr:p1", 12)...)
+	p1str, err := bech32.ConvertAndEncode(prefix, p1)
+	if err != nil {
+		panic(err)
+	}
+	t.addr["p1"], t.addrStr["p1"], t.strRev[p1str], t.fullAddr["p1"] = t.addr["a1"], p1str, "p1", p1
 	t.dom["NOBLE"] = 4
 	t.domRev[4] = "NOBLE"
 	for i, s := range domSymbols {
